@@ -161,3 +161,79 @@ func VerifC08_Cluster() {
 		vfAssert("never-twice-from-one-instance", inst.notifier.calls <= 1)
 	}
 }
+
+// VerifC08_FullStateSync: instance A (position 0) is partitioned from B (position 1)
+// while it notifies any subset of 2 (quick) / 3 (thorough) groups, so its per-entry
+// gossip is lost. The partition heals and B receives A's whole notification log as
+// one full-state message (MarshalBinary -> Merge, what push/pull does), any time
+// before the repeat interval is over. When B then flushes the same groups it stays
+// silent for every group A already notified (every entry of the message was merged,
+// not only the first) and sends for the groups A never handled.
+//
+//vf:quick unwind=16 decisions=400 goroutines=8 preempt=0 paths=400000
+//vf:thorough unwind=16 decisions=600 goroutines=10 preempt=0 paths=4000000
+//vf:expect reach=all-covered reach=some-uncovered
+func VerifC08_FullStateSync() {
+	k := 2 + vfTier()
+	peerTimeout := 15 * time.Second
+	m := NewMetrics(prometheus.NewRegistry(), featurecontrol.NoopFlags{})
+	mk := func(pos int) *hInstance08 {
+		l, err := nflog.New(nflog.Options{Retention: 100 * time.Hour, Metrics: prometheus.NewRegistry()})
+		if err != nil {
+			panic(err)
+		}
+		inst := &hInstance08{pos: pos, log: l, notifier: &hNotifier08{}}
+		inst.stage = createReceiverStage("recv", []Integration{NewIntegration(inst.notifier, hRS08(true), "webhook", 0, "recv")},
+			func() time.Duration { return time.Duration(pos) * peerTimeout }, l, m, eventrecorder.Recorder{})
+		return inst
+	}
+	A, B := mk(0), mk(1)
+	A.log.SetBroadcast(func([]byte) {}) // partitioned: per-entry gossip is lost
+	rebroadcast := 0
+	B.log.SetBroadcast(func([]byte) { rebroadcast++ })
+	now := vfNow()
+	a := &alert.Alert{}
+	a.Labels = model.LabelSet{"alertname": "A"}
+	a.StartsAt, a.UpdatedAt = now.Add(-time.Minute), now.Add(-time.Minute)
+	repeat := 4 * time.Hour
+	exec := func(inst *hInstance08, g int) {
+		ctx, cancel := context.WithTimeout(context.Background(), 5*time.Minute)
+		defer cancel()
+		c := WithGroupKey(ctx, fmt.Sprintf("gk%d", g))
+		c = WithReceiverName(c, "recv")
+		c = WithRepeatInterval(c, repeat)
+		c = WithNow(c, vfNow())
+		if _, _, err := inst.stage.Exec(c, promslog.NewNopLogger(), a); err != nil {
+			vfFail("stage-failed")
+		}
+	}
+	handled := make([]bool, k)
+	nh := 0
+	for g := 0; g < k; g++ {
+		if vfBool(fmt.Sprintf("A.notified.%d", g)) {
+			handled[g] = true
+			nh++
+			exec(A, g)
+		}
+	}
+	vfAssert("A-sent-its-groups", A.notifier.calls == nh)
+	// the partition heals some time before the repeat interval is over
+	vfAdvance(vfSeconds("healAfter", 0, 3*3600))
+	st, err := A.log.MarshalBinary()
+	vfAssert("state-marshals", err == nil)
+	vfAssert("full-state-merges", B.log.Merge(st) == nil)
+	for g := 0; g < k; g++ {
+		before := B.notifier.calls
+		exec(B, g)
+		if handled[g] {
+			vfAssert("already-notified-group-stays-silent", B.notifier.calls == before)
+		} else {
+			vfAssert("unhandled-group-is-notified", B.notifier.calls == before+1)
+		}
+	}
+	if nh == k {
+		vfReach("all-covered")
+	} else {
+		vfReach("some-uncovered")
+	}
+}
